@@ -6,10 +6,14 @@
    the verdicts below are recomputed by vm_compute on those programs, so removing a defensive copy or re-introducing an
    in-place edit on a parameter flips a verdict and breaks the corresponding theorem.
    Plot model: Cop.Model.Plot (hand-written transcription of copulas/visualization.py and of px.scatter's grouping),
-   theorems in Cop.Spec.PlotProofs, tied to the implementation by the differential correspondence of the check. *)
+   theorems in Cop.Spec.PlotProofs, tied to the implementation by the differential correspondence of the check AND, for the
+   data pipeline of scatter_2d/3d, compare_2d/3d and _generate_scatter_2d/3d_plot, by proof: the pipeline is GENERATED from the
+   Python AST on every run (CopRun.Gen_plot, tools/vf/plotgen.py, fail-closed; denotations of the pandas / plotly operations in
+   Cop.Lib.PyFrame) and PROVED equal to the hand-written functions for all inputs ([C20_bridge_*], section 6). *)
 From Coq Require Import ZArith List Bool Arith Lia Permutation.
-From Cop Require Import Model.Alias Spec.AliasProofs Spec.AliasEntry Model.Plot Spec.PlotProofs.
+From Cop Require Import Model.Alias Spec.AliasProofs Spec.AliasEntry Model.Plot Spec.PlotProofs Lib.PyFrame.
 From CopRun Require Import Gen_effects.
+From CopRun Require Import Gen_plot.
 Import ListNotations.
 
 (* analysis fuel = call depth bound; the check verifies that the generated call graph is acyclic and shallower *)
@@ -500,3 +504,144 @@ Print Assumptions C20_entrypoints.
 Print Assumptions C20_tree_fit_args_unchanged.
 Print Assumptions C20_plot_rows.
 Print Assumptions C20_second_call_same.
+
+(* BEGIN-BRIDGE  (this section is self-contained: when an earlier statement of this file fails, props/C20.py re-checks it on its own) *)
+(* ================================================================================================ *)
+(* 6. The plot model IS the source: generated pipeline = Model.Plot, for all inputs                  *)
+(* ================================================================================================ *)
+(* CopRun.Gen_plot holds one Gallina definition per function of copulas/visualization.py's scatter pipeline, built from the
+   Python AST by tools/vf/plotgen.py on every run.  A generated function takes the caller's objects (frames: [DF f] = as given,
+   [LDF t] = labelled; `columns`: None or a list; title: None or a string) and returns
+       (the caller's frame(s) AFTER the call, the caller's `columns` AFTER the call, inl exception | inr figure).
+   Each theorem: for ALL frames, column lists (None, [], any list) and titles (None, '', any string) the generated function
+   returns the caller's objects UNCHANGED and the outcome of the hand-written model ([lift_outcome]: ErrIndex = the builtin
+   IndexError, ErrColumnCount = the ValueError of the `raise` statement, ErrNoSuchColumn = the ValueError of plotly; or the
+   list of traces), and the model's own account of the caller's list ([fst]) is that list.
+   A source change that alters the pipeline (label, column name, concat order, a dropped copy, an in-place append, the length
+   constant, the axes) changes the generated term and the theorem no longer holds; a shape outside the fragment fails the
+   translation. *)
+Ltac px_cases :=
+  unfold px_scatter_2d, px_scatter_3d; cbn [firstn];
+  match goal with |- context [px_scatter_df ?d ?a ?c] => destruct (px_scatter_df d a c) end; reflexivity.
+
+(* the body of a generator after the `if columns:` statement, on the list [cols] it indexes *)
+Ltac generator_tail k cols :=
+  cbv zeta; unfold py_len;
+  destruct (Nat.eqb (length cols) (S k)) eqn:E; cbn [negb];
+  [ apply Nat.eqb_eq in E | reflexivity ].
+
+Theorem C20_bridge_generate_scatter_2d :
+  forall (data : tframe) (columns : pycols) (cdm : pyopaque) (title : pytitle),
+    gen__generate_scatter_2d_plot (LDF data) columns cdm title =
+      (LDF data, columns, lift_outcome (snd (generate_scatter 2 data (cols_arg columns)))) /\
+    fst (generate_scatter 2 data (cols_arg columns)) = cols_arg columns.
+Proof.
+  intros data columns cdm title. split; [|apply generate_scatter_fst].
+  rewrite generate_scatter_px. unfold gen__generate_scatter_2d_plot.
+  rewrite py_truthy_cols_arg. unfold py_list_add, py_list_new.
+  destruct columns as [[|c0 cs]|]; cbn [cols_arg py_truthy_list py_as_list scatter_cols df_columns py_list_add py_list_new].
+  - generator_tail 2 (tcols data). apply list_len3 in E. destruct E as (x & y & z & ->). cbn. px_cases.
+  - generator_tail 2 ((c0 :: cs) ++ [data_col]). apply list_len3 in E. destruct E as (x & y & z & ->). cbn. px_cases.
+  - generator_tail 2 (tcols data). apply list_len3 in E. destruct E as (x & y & z & ->). cbn. px_cases.
+Qed.
+Print Assumptions C20_bridge_generate_scatter_2d.
+
+Theorem C20_bridge_generate_scatter_3d :
+  forall (data : tframe) (columns : pycols) (cdm : pyopaque) (title : pytitle),
+    gen__generate_scatter_3d_plot (LDF data) columns cdm title =
+      (LDF data, columns, lift_outcome (snd (generate_scatter 3 data (cols_arg columns)))) /\
+    fst (generate_scatter 3 data (cols_arg columns)) = cols_arg columns.
+Proof.
+  intros data columns cdm title. split; [|apply generate_scatter_fst].
+  rewrite generate_scatter_px. unfold gen__generate_scatter_3d_plot.
+  rewrite py_truthy_cols_arg. unfold py_list_add, py_list_new.
+  destruct columns as [[|c0 cs]|]; cbn [cols_arg py_truthy_list py_as_list scatter_cols df_columns].
+  - generator_tail 3 (tcols data). apply list_len4 in E. destruct E as (x & y & z & w & ->). cbn. px_cases.
+  - generator_tail 3 ((c0 :: cs) ++ [data_col]). apply list_len4 in E. destruct E as (x & y & z & w & ->). cbn. px_cases.
+  - generator_tail 3 (tcols data). apply list_len4 in E. destruct E as (x & y & z & w & ->). cbn. px_cases.
+Qed.
+Print Assumptions C20_bridge_generate_scatter_3d.
+
+(* the callers: copy + label (+ concat), the default-title code, the call of the generator *)
+Arguments gen__generate_scatter_2d_plot : simpl never.
+Arguments gen__generate_scatter_3d_plot : simpl never.
+
+(* after the case analysis the subscripts have been evaluated: the call of the generator is rewritten with its bridge theorem, the
+   outcome is passed through unchanged *)
+Ltac through_generator gen_bridge :=
+  cbn; rewrite ?(fun d cc oo tt0 => proj1 (gen_bridge d cc oo tt0)); cbv beta iota; cbn [cols_arg];
+  try match goal with |- context [lift_outcome ?r] => destruct (lift_outcome r) end; reflexivity.
+
+Ltac caller_head :=
+  rewrite plot_nd_outcome; cbv beta iota;
+  match goal with |- context [generate_scatter _ ?d0 _] => let d' := fresh "d" in generalize d0; intros d' end;
+  unfold py_isinstance_DataFrame, df_columns;
+  match goal with |- context [py_truthy_title ?t] => destruct (py_truthy_title t) end; cbn [negb orb].
+
+Ltac case_cols2 := match goal with |- context [tcols ?d] => destruct (tcols d) as [|?x [|?y ?l]] end.
+Ltac case_cols3 := match goal with |- context [tcols ?d] => destruct (tcols d) as [|?x [|?y [|?z ?l]]] end.
+
+Theorem C20_bridge_scatter_2d :
+  forall (data : frame) (columns : pycols) (title : pytitle),
+    gen_scatter_2d (DF data) columns title =
+      (DF data, columns, lift_outcome (snd (scatter_2d (py_truthy_title title) data (cols_arg columns)))) /\
+    fst (scatter_2d (py_truthy_title title) data (cols_arg columns)) = cols_arg columns.
+Proof.
+  intros data columns title. split; [|apply plot_nd_fst].
+  unfold scatter_2d, scatter_nd, gen_scatter_2d. cbv zeta. rewrite df_setitem_copy_frame.
+  caller_head; [through_generator C20_bridge_generate_scatter_2d|].
+  destruct columns as [[|a [|b l]]|]; cbn; try case_cols2; through_generator C20_bridge_generate_scatter_2d.
+Qed.
+Print Assumptions C20_bridge_scatter_2d.
+
+Theorem C20_bridge_scatter_3d :
+  forall (data : frame) (columns : pycols) (title : pytitle),
+    gen_scatter_3d (DF data) columns title =
+      (DF data, columns, lift_outcome (snd (scatter_3d (py_truthy_title title) data (cols_arg columns)))) /\
+    fst (scatter_3d (py_truthy_title title) data (cols_arg columns)) = cols_arg columns.
+Proof.
+  intros data columns title. split; [|apply plot_nd_fst].
+  unfold scatter_3d, scatter_nd, gen_scatter_3d. cbv zeta. rewrite df_setitem_copy_frame.
+  caller_head; [through_generator C20_bridge_generate_scatter_3d|].
+  destruct columns as [[|a [|b [|c l]]]|]; cbn; try case_cols3; through_generator C20_bridge_generate_scatter_3d.
+Qed.
+Print Assumptions C20_bridge_scatter_3d.
+
+Theorem C20_bridge_compare_2d :
+  forall (real synth : frame) (columns : pycols) (title : pytitle),
+    gen_compare_2d (DF real) (DF synth) columns title =
+      (DF real, DF synth, columns, lift_outcome (snd (compare_2d (py_truthy_title title) real synth (cols_arg columns)))) /\
+    fst (compare_2d (py_truthy_title title) real synth (cols_arg columns)) = cols_arg columns.
+Proof.
+  intros real synth columns title. split; [|apply plot_nd_fst].
+  unfold compare_2d, compare_nd, gen_compare_2d. cbv zeta. rewrite !df_setitem_copy_frame. cbv beta iota.
+  rewrite pd_concat_two.
+  caller_head; [through_generator C20_bridge_generate_scatter_2d|].
+  destruct columns as [[|a [|b l]]|]; cbn; try case_cols2; through_generator C20_bridge_generate_scatter_2d.
+Qed.
+Print Assumptions C20_bridge_compare_2d.
+
+Theorem C20_bridge_compare_3d :
+  forall (real synth : frame) (columns : pycols) (title : pytitle),
+    gen_compare_3d (DF real) (DF synth) columns title =
+      (DF real, DF synth, columns, lift_outcome (snd (compare_3d (py_truthy_title title) real synth (cols_arg columns)))) /\
+    fst (compare_3d (py_truthy_title title) real synth (cols_arg columns)) = cols_arg columns.
+Proof.
+  intros real synth columns title. split; [|apply plot_nd_fst].
+  unfold compare_3d, compare_nd, gen_compare_3d. cbv zeta. rewrite !df_setitem_copy_frame. cbv beta iota.
+  rewrite pd_concat_two.
+  caller_head; [through_generator C20_bridge_generate_scatter_3d|].
+  destruct columns as [[|a [|b [|c l]]]|]; cbn; try case_cols3; through_generator C20_bridge_generate_scatter_3d.
+Qed.
+Print Assumptions C20_bridge_compare_3d.
+
+(* the generated functions compute (a run of the real library gives the same traces / exception classes) *)
+Example C20_bridge_nonvacuous :
+  gen_compare_2d (DF fr_real) (DF fr_synth) (Some [1; 2]) None =
+    (DF fr_real, DF fr_synth, Some [1; 2],
+     inr [(Real, [[VNum 1; VNum 5]; [VNum 2; VNum 6]]); (Synthetic, [[VNaN; VNum 1]; [VNaN; VNum 2]])]) /\
+  snd (gen_scatter_2d (DF fr_real) (Some [1]) None) = inl (PyBuiltin IndexError) /\
+  snd (gen_scatter_2d (DF fr_real) (Some [1]) (Some [84])) = inl (PyRaise ValueError) /\
+  snd (gen_compare_2d (DF fr_real) (DF fr_synth) (Some [1; 9]) None) = inl (PxError ValueError) /\
+  snd (gen_scatter_3d (DF fr_real) (Some [1; 2; 1]) None) = inr [(Real, [[VNum 1; VNum 5; VNum 1]; [VNum 2; VNum 6; VNum 2]])].
+Proof. vm_compute. repeat split; reflexivity. Qed.
